@@ -1813,6 +1813,11 @@ def check(program, rep):
     rep.guard("C14-R5", r5_busy_states, program, folder, rep)
     rep.guard("C14-R6", r6_status, program, folder, rep)
     rep.guard("C14-R6", r6_status_offsets, program, rep)
+    # the console buffers and per-core fields are found through
+    # read_vcpu_struct_field: the address is computed for the chip and core
+    # asked about, each time (C07-R4)
+    from . import C07
+    rep.guard("C07-R4", C07.r4_addresses, program, folder, rep)
     rep.guard("C14-R6", r6_version, program, rep)
     rep.guard("C14-R6", r6_pack_table, program, folder, rep)
     # arguments handed to package functions under the wrong name / same-
